@@ -70,13 +70,15 @@ var opNames = map[Op]string{
 const IntW = -1
 
 type Term struct {
-	ID   int
-	Op   Op
-	W    int
-	Args []*Term
-	Val  uint64 // constant value (masked; for Int: two's complement int64), or extract hi/lo
-	Name string // variable name
-	emit int    // emission epoch
+	ID    int
+	Op    Op
+	W     int
+	Args  []*Term
+	Val   uint64 // constant value (masked; for Int: two's complement int64), or extract hi/lo
+	Name  string // variable name
+	emit  int    // emission epoch
+	emit2 int    // emission epoch of stand-alone scripts
+	lin   *linForm
 }
 
 func (t *Term) IsConst() bool { return t.Op == OpConst }
@@ -131,6 +133,8 @@ type Factory struct {
 	True   *Term
 	False  *Term
 	epoch  int
+	epoch2 int
+	fresh  bool
 	bytes  [256]*Term
 	Vars   map[string]*Term
 }
@@ -307,6 +311,23 @@ func (f *Factory) Eq(a, b *Term) *Term {
 	if a.Op == OpConst && b.Op == OpIte && b.Args[1].Op == OpConst && b.Args[2].Op == OpConst {
 		return f.eqIteConst(b, a)
 	}
+	// eq(affine form living in a single bit position, const) -> 1-bit equality
+	if b.Op == OpConst && a.lin != nil && a.W > 1 {
+		m := a.lin.c
+		for _, at := range a.lin.a {
+			m |= at.k
+		}
+		if m != 0 && m&(m-1) == 0 {
+			p := bits.TrailingZeros64(m)
+			if b.Val&^m != 0 {
+				return f.False
+			}
+			return f.Eq(f.Extract(a, p, p), f.Const(1, b.Val>>uint(p)))
+		}
+	}
+	if a.Op == OpConst && b.lin != nil && b.W > 1 {
+		return f.Eq(b, a)
+	}
 	// eq(zext(x), const)
 	if b.Op == OpConst && a.Op == OpZext {
 		x := a.Args[0]
@@ -376,6 +397,12 @@ func (f *Factory) Ite(c, a, b *Term) *Term {
 	}
 	if c.Op == OpNot {
 		return f.Ite(c.Args[0], b, a)
+	}
+	// ite(c, k1, k2) on constants -> k2 ^ ((k1^k2) & mask(c)) when c is a single bit test
+	if a.W > 1 && a.Op == OpConst && b.Op == OpConst {
+		if bit, ok := f.asBit(c); ok {
+			return f.BVXor(f.BVAnd(f.Sext(bit, a.W), f.Const(a.W, a.Val^b.Val)), b)
+		}
 	}
 	// ite(c, x^k, x) -> x ^ (k & mask(c)) : keeps GF(2) terms linear for the solver
 	if a.W > 0 {
@@ -450,6 +477,9 @@ func (f *Factory) BVNot(a *Term) *Term {
 	if a.Op == OpBVNot {
 		return a.Args[0]
 	}
+	if r := f.tryLinNot(a); r != nil {
+		return r
+	}
 	return f.mk(OpBVNot, a.W, 0, "", a)
 }
 
@@ -483,6 +513,9 @@ func (f *Factory) BVAnd(a, b *Term) *Term {
 		}
 		if b.Val == mask(a.W) {
 			return a
+		}
+		if r := f.tryLinAndConst(a, b.Val); r != nil {
+			return r
 		}
 		// x & (2^k - 1) -> zext(extract(k-1,0,x))
 		if b.Val&(b.Val+1) == 0 {
@@ -543,6 +576,9 @@ func (f *Factory) BVXor(a, b *Term) *Term {
 	}
 	if a == b {
 		return f.Const(a.W, 0)
+	}
+	if r := f.tryLinXor(a, b); r != nil {
+		return r
 	}
 	return f.comm(OpBVXor, a, b)
 }
@@ -829,6 +865,11 @@ func (f *Factory) Concat(hi, lo *Term) *Term {
 			return f.Extract(hi.Args[0], hh, ll)
 		}
 	}
+	if hi.lin != nil || lo.lin != nil {
+		if r := f.tryLinConcat(hi, lo); r != nil {
+			return r
+		}
+	}
 	return f.mk(OpConcat, w, 0, "", hi, lo)
 }
 
@@ -839,6 +880,11 @@ func (f *Factory) Extract(a *Term, hi, lo int) *Term {
 	w := hi - lo + 1
 	if w == a.W {
 		return a
+	}
+	if a.lin != nil {
+		if r := f.tryLinExtract(a, hi, lo); r != nil {
+			return r
+		}
 	}
 	switch a.Op {
 	case OpConst:
@@ -900,6 +946,11 @@ func (f *Factory) Zext(a *Term, w int) *Term {
 	if a.Op == OpZext {
 		return f.Zext(a.Args[0], w)
 	}
+	if a.lin != nil {
+		if r := f.tryLinZext(a, w); r != nil {
+			return r
+		}
+	}
 	return f.mk(OpZext, w, 0, "", a)
 }
 
@@ -918,6 +969,9 @@ func (f *Factory) Sext(a *Term, w int) *Term {
 	}
 	if a.Op == OpSext {
 		return f.Sext(a.Args[0], w)
+	}
+	if r := f.tryLinSextBit(a, w); r != nil {
+		return r
 	}
 	return f.mk(OpSext, w, 0, "", a)
 }
@@ -1118,7 +1172,22 @@ func (f *Factory) Emit(sb *strings.Builder, t *Term) string {
 	return t.ref()
 }
 
+// BeginFresh starts a stand-alone script: EmitFresh re-emits every definition.
+func (f *Factory) BeginFresh() { f.epoch2++ }
+
+// EmitFresh is Emit for a stand-alone script started with BeginFresh.
+func (f *Factory) EmitFresh(sb *strings.Builder, t *Term) string {
+	f.fresh = true
+	f.emitRec(sb, t)
+	f.fresh = false
+	return t.ref()
+}
+
 func (f *Factory) emitRec(sb *strings.Builder, root *Term) {
+	if f.fresh {
+		f.emitRec2(sb, root)
+		return
+	}
 	mark := f.epoch + 1
 	if root.emit == mark || root.Op == OpConst {
 		return
@@ -1145,6 +1214,57 @@ func (f *Factory) emitRec(sb *strings.Builder, root *Term) {
 			continue
 		}
 		t.emit = mark
+		stack = stack[:len(stack)-1]
+		if t.Op == OpVar {
+			fmt.Fprintf(sb, "(declare-const |%s| %s)\n", t.Name, sortOf(t.W))
+			continue
+		}
+		fmt.Fprintf(sb, "(define-fun t%d () %s ", t.ID, sortOf(t.W))
+		switch t.Op {
+		case OpExtract:
+			fmt.Fprintf(sb, "((_ extract %d %d) %s)", t.Val>>8, t.Val&0xff, t.Args[0].ref())
+		case OpZext:
+			fmt.Fprintf(sb, "((_ zero_extend %d) %s)", t.W-t.Args[0].W, t.Args[0].ref())
+		case OpSext:
+			fmt.Fprintf(sb, "((_ sign_extend %d) %s)", t.W-t.Args[0].W, t.Args[0].ref())
+		default:
+			sb.WriteString("(" + opNames[t.Op])
+			for _, a := range t.Args {
+				sb.WriteString(" " + a.ref())
+			}
+			sb.WriteString(")")
+		}
+		sb.WriteString(")\n")
+	}
+}
+
+func (f *Factory) emitRec2(sb *strings.Builder, root *Term) {
+	mark := f.epoch2
+	if root.emit2 == mark || root.Op == OpConst {
+		return
+	}
+	// iterative post-order to survive deep DAGs
+	type fr struct {
+		t *Term
+		i int
+	}
+	stack := []fr{{root, 0}}
+	for len(stack) > 0 {
+		top := &stack[len(stack)-1]
+		t := top.t
+		if t.emit2 == mark || t.Op == OpConst {
+			stack = stack[:len(stack)-1]
+			continue
+		}
+		if top.i < len(t.Args) {
+			a := t.Args[top.i]
+			top.i++
+			if a.emit2 != mark && a.Op != OpConst {
+				stack = append(stack, fr{a, 0})
+			}
+			continue
+		}
+		t.emit2 = mark
 		stack = stack[:len(stack)-1]
 		if t.Op == OpVar {
 			fmt.Fprintf(sb, "(declare-const |%s| %s)\n", t.Name, sortOf(t.W))
@@ -1342,4 +1462,131 @@ func (f *Factory) Eval(t *Term, env map[string]uint64, memo map[int]uint64) uint
 	}
 	memo[t.ID] = r
 	return r
+}
+
+// Rebuild constructs op(args) through the simplifying constructors.
+func (f *Factory) Rebuild(t *Term, a []*Term) *Term {
+	switch t.Op {
+	case OpConst, OpVar:
+		return t
+	case OpNot:
+		return f.Not(a[0])
+	case OpAnd:
+		return f.And(a[0], a[1])
+	case OpOr:
+		return f.Or(a[0], a[1])
+	case OpEq:
+		return f.Eq(a[0], a[1])
+	case OpIte:
+		return f.Ite(a[0], a[1], a[2])
+	case OpBVNot:
+		return f.BVNot(a[0])
+	case OpBVNeg:
+		return f.BVNeg(a[0])
+	case OpBVAnd:
+		return f.BVAnd(a[0], a[1])
+	case OpBVOr:
+		return f.BVOr(a[0], a[1])
+	case OpBVXor:
+		return f.BVXor(a[0], a[1])
+	case OpBVAdd:
+		return f.BVAdd(a[0], a[1])
+	case OpBVSub:
+		return f.BVSub(a[0], a[1])
+	case OpBVMul:
+		return f.BVMul(a[0], a[1])
+	case OpBVUDiv:
+		return f.BVUDiv(a[0], a[1])
+	case OpBVURem:
+		return f.BVURem(a[0], a[1])
+	case OpBVSDiv:
+		return f.BVSDiv(a[0], a[1])
+	case OpBVSRem:
+		return f.BVSRem(a[0], a[1])
+	case OpBVShl:
+		return f.BVShl(a[0], a[1])
+	case OpBVLshr:
+		return f.BVLshr(a[0], a[1])
+	case OpBVAshr:
+		return f.BVAshr(a[0], a[1])
+	case OpUlt:
+		return f.Ult(a[0], a[1])
+	case OpUle:
+		return f.Ule(a[0], a[1])
+	case OpSlt:
+		return f.Slt(a[0], a[1])
+	case OpSle:
+		return f.Sle(a[0], a[1])
+	case OpConcat:
+		return f.Concat(a[0], a[1])
+	case OpExtract:
+		return f.Extract(a[0], int(t.Val>>8), int(t.Val&0xff))
+	case OpZext:
+		return f.Zext(a[0], t.W)
+	case OpSext:
+		return f.Sext(a[0], t.W)
+	case OpIAdd, OpISub, OpIMul, OpIDiv, OpIMod, OpILt, OpILe:
+		return f.IBin(t.Op, a[0], a[1])
+	case OpINeg:
+		return f.INeg(a[0])
+	case OpUBV2Int:
+		return f.BV2Int(a[0], false)
+	case OpSBV2Int:
+		return f.BV2Int(a[0], true)
+	}
+	panic("Rebuild: unknown op")
+}
+
+// AssumeZeroBits rewrites t under the assumption that bits hi..lo of x are
+// zero: every extract of x that lies inside that range becomes 0. The result
+// is equal to t whenever the assumption holds (pure rewriting).
+func (f *Factory) AssumeZeroBits(t, x *Term, hi, lo int, memo map[int]*Term) *Term {
+	if t.Op == OpConst || t.Op == OpVar {
+		return t
+	}
+	if r, ok := memo[t.ID]; ok {
+		return r
+	}
+	var r *Term
+	if t.Op == OpExtract && t.Args[0] == x {
+		h, l := int(t.Val>>8), int(t.Val&0xff)
+		if l >= lo && h <= hi {
+			r = f.Const(t.W, 0)
+		}
+	}
+	if r == nil {
+		args := make([]*Term, len(t.Args))
+		changed := false
+		for i, a := range t.Args {
+			args[i] = f.AssumeZeroBits(a, x, hi, lo, memo)
+			if args[i] != a {
+				changed = true
+			}
+		}
+		if changed {
+			r = f.Rebuild(t, args)
+		} else {
+			r = t
+		}
+	}
+	memo[t.ID] = r
+	return r
+}
+
+// ZeroBitsFact recognises c as "bits hi..lo of x are zero".
+func (f *Factory) ZeroBitsFact(c *Term) (x *Term, hi, lo int, ok bool) {
+	if c.Op != OpEq {
+		return nil, 0, 0, false
+	}
+	a, b := c.Args[0], c.Args[1]
+	if a.Op == OpConst {
+		a, b = b, a
+	}
+	if b.Op != OpConst || b.Val != 0 || a.W <= 0 {
+		return nil, 0, 0, false
+	}
+	if a.Op == OpExtract {
+		return a.Args[0], int(a.Val >> 8), int(a.Val & 0xff), true
+	}
+	return a, a.W - 1, 0, true
 }
